@@ -4,6 +4,7 @@ from __future__ import annotations
 
 import warnings
 from dataclasses import dataclass, field
+from typing import Any
 
 warnings.simplefilter("ignore", DeprecationWarning)
 
@@ -53,7 +54,16 @@ class LBlock(LNode):
         return len(self.kids)
 
 
-CLS = {c.__name__: c for c in (LNode, LLeaf, LLeafB, LInner, LReq, LBlock)}
+@dataclass
+class LAny(LNode):
+    """holds a child in a field whose ANNOTATION is not a node type (the legacy package finds children at run time)"""
+
+    payload: Any = None
+    items: tuple[LNode, ...] = ()
+    tag: str = ""
+
+
+CLS = {c.__name__: c for c in (LNode, LLeaf, LLeafB, LInner, LReq, LBlock, LAny)}
 
 # (name, kind, allowed classes)  kind: single | tuple | list
 CHILD_FIELDS: dict[str, list[tuple[str, str, tuple[str, ...]]]] = {
@@ -63,6 +73,7 @@ CHILD_FIELDS: dict[str, list[tuple[str, str, tuple[str, ...]]]] = {
     "LInner": [("one", "single", ("any",)), ("items", "tuple", ("any",)), ("lst", "list", ("any",)), ("only_leaf", "single", ("LLeaf",))],
     "LReq": [("req", "single", ("any",))],
     "LBlock": [("kids", "tuple", ("any",))],
+    "LAny": [("payload", "single", ("any",)), ("items", "tuple", ("any",))],
 }
 PROP_FIELDS: dict[str, list[tuple[str, bool]]] = {  # (name, compare)
     "LNode": [],
@@ -71,5 +82,6 @@ PROP_FIELDS: dict[str, list[tuple[str, bool]]] = {  # (name, compare)
     "LInner": [("tag", True)],
     "LReq": [("tag", True)],
     "LBlock": [],
+    "LAny": [("tag", True)],
 }
-OPTIONAL = {("LInner", "one"), ("LInner", "only_leaf")}
+OPTIONAL = {("LInner", "one"), ("LInner", "only_leaf"), ("LAny", "payload")}
